@@ -729,6 +729,27 @@ func main() {
 			os.Exit(runProp(*prop, *modeFlag, *tier, *seed, *out, *rdir, *known, *only, nil))
 		}
 		os.Exit(supervise(*prop, *tier, *seed, *out, *rdir, *known))
+	case "cpleader":
+		var lead int
+		fmt.Sscan(os.Args[2], &lead)
+		for _, l := range cpLeaderBody(lead).Lines {
+			fmt.Println(l)
+		}
+		os.Exit(0)
+	case "cpperm":
+		// one permutation of the compliance suite, in this fresh process; the trace goes to stdout
+		var seed uint64
+		var idx int
+		fmt.Sscan(os.Args[2], &seed)
+		fmt.Sscan(os.Args[3], &idx)
+		c := cpPermBody(seed, idx)
+		t, _ := c.Run([]int{0})
+		if t != nil {
+			for _, l := range t.Lines {
+				fmt.Println(l)
+			}
+		}
+		os.Exit(0)
 	case "dump":
 		fs := flag.NewFlagSet("dump", flag.ExitOnError)
 		prop := fs.String("prop", "", "property id")
